@@ -537,8 +537,8 @@ class Probe:
         replay['packed'] = b2.hex()
         replay['packed_before'] = packB.hex()
         f1, f2 = packB[:size], b2[:size]
-        if len(f2) < size:
-            self.violation(s, u['name'], 'size', 'pack() produced %d bytes, fewer than sizeof %d' % (len(b2), size), replay)
+        if len(f2) < size or len(f1) < size:
+            self.violation(s, u['name'], 'size', 'pack() produced %d bytes, fewer than sizeof %d' % (min(len(b2), len(packB)), size), replay)
             return
         diff = [i for i in range(size) if f1[i] != f2[i]]
         outside = [i for i in diff if not (off <= i < off + w)]
